@@ -188,6 +188,23 @@ Example C11_chain_nonvacuous :
      = [(0, 2); (1, 12); (2, 2); (3, 22); (4, 32)].
 Proof. exact c11_chain_examples. Qed.
 
+(* round 4 — the operands of a chain are objects that keep their values.  In the model a fiber
+   operand c is a value (no step can change it: the chain observation lists every operand after every
+   step and the oracle demands its literal), and the object a0 holds what the accumulator held
+   when it was last that object: after in-place steps [pre] and then a value-returning step, nothing
+   that follows changes it; with in-place steps only it is the accumulator. *)
+Theorem C11_chain_operands :
+  (forall pre acc a0cur st rest,
+     forallb is_inplace pre = true -> is_inplace st = false ->
+     chain_a0 true a0cur acc (pre ++ st :: rest)
+     = match pre with [] => a0cur | _ => af_elems (chain acc pre) end)
+  /\ (forall steps acc a0cur,
+        forallb is_inplace steps = true ->
+        chain_a0 true a0cur acc steps
+        = match steps with [] => a0cur | _ => af_elems (chain acc steps) end).
+Proof. exact (conj chain_a0_split chain_a0_all_inplace). Qed.
+Print Assumptions C11_chain_operands.
+
 (* the pinned Fiber.__imul__(fiber) (fiber.py:3286-3296, model fimul_pinned) violates the clause:
    elements of a outside the intersection keep their value.  Witness a = {0:1, 2:2}, b = {2:10}. *)
 Theorem C11_fiber_imul_pinned_refuted :
